@@ -21,13 +21,14 @@ META = dict(
     level="other",
     stubs=["np.digitize -> its documented contract as comparison code", "np.linspace(a, b, n) with symbolic end points -> exact affine spacing with exact end point",
            "np.sign on symbolic values -> comparison code", "signal.lfilter in fdepsd._dofde -> returns the symbolic response history (the filter is C03's subject)",
-           "cyclecount.rainflow inside _dofde -> the real py_rain._rainflow2 on the symbolic reversal points (C05 shows C == Python)",
+           "cyclecount.rainflow inside _dofde -> the real py_rain._rainflow2 on the symbolic reversal points (C05 shows C == Python)", "G2 block: np.log of the (concrete) counts -> NumPy; comparisons of amplitude arrays decided element by element; np.interp -> its piecewise-linear contract",
            "the numba definition of findap is compiled from the `else:` branch of cyclecount.py's AST with numba_bool = bool (numba is not installed)"],
-    outside=["G1, G2, G4, G8, G12 and the damage-equivalent PSD formulas of fdepsd (logs, roots, argmax of tangents)", "scaling with input amplitude squared",
+    outside=["G1, G4, G8, G12 and the damage-equivalent PSD formulas of fdepsd (logs, roots); for G2 only homogeneity of its block is claimed, on three count profiles", "scaling with input amplitude squared of the other outputs",
+             "bins lying exactly on the small-cycle cut Amax/3 (inclusion hinges on floating-point rounding of the bin amplitude)",
              "detrend / filter / rolloff options of fdepsd", "pandas labelling of binify"],
     assumptions=["signal samples in [-100, 100]; tol concrete (1e-6, 0, and 0.25 to make sub-tolerance regions large)",
                  "_dofde kernel: the response has no non-zero step below findap's tolerance (that region belongs to the recorded findap findings)"],
-    reach_required=["findap-plateau", "findap-alternating", "findap-subtol-step", "binify-auto", "binify-explicit-outside", "binify-right", "binify-left", "dofde"],
+    reach_required=["g2-homogeneous", "findap-plateau", "findap-alternating", "findap-subtol-step", "binify-auto", "binify-explicit-outside", "binify-right", "binify-left", "dofde"],
     trusted_base=["z3 5.1", "CPython 3.12", "NumPy array semantics on dtype=object"],
 )
 
@@ -466,7 +467,137 @@ def job_dofde(N, nbins, split_depth=None, roots=None):
     return res
 
 
-REPLAY = {"findap": replay_findap, "binify": replay_binify, "dofde": replay_dofde}
+# ---------------------------------------------------------------------------
+# K4: the G2 block of fdepsd (compiled from the function's AST): G2max is homogeneous of degree 2 in the
+# response amplitude, i.e. scaling the signal scales every PSD output by the square
+
+def _g2_block():
+    """(function g2(Amax, BinAmps, Count, LF, np) -> G2max compiled from fdepsd's statements, source hash)"""
+    if "g2" in _C:
+        return _C["g2"]
+    import ast
+    import hashlib
+    import inspect
+    import textwrap
+    import pyyeti.fdepsd as fd
+    tree = ast.parse(textwrap.dedent(inspect.getsource(fd.fdepsd)))
+    body = tree.body[0].body
+    k = next(i for i, st in enumerate(body) if isinstance(st, ast.Assign) and isinstance(st.targets[0], ast.Name) and st.targets[0].id == "G2max")
+    stmts = body[k:k + 2]
+    assert isinstance(stmts[1], ast.For)
+    fn = ast.FunctionDef(name="g2", args=ast.arguments(posonlyargs=[], args=[ast.arg(a) for a in ("Amax", "BinAmps", "Count", "LF", "np")], kwonlyargs=[], kw_defaults=[], defaults=[]),
+                         body=stmts + [ast.Return(ast.Name("G2max", ast.Load()))], decorator_list=[], type_params=[])
+    mod = ast.Module(body=[fn], type_ignores=[])
+    ast.fix_missing_locations(mod)
+    g = {}
+    exec(compile(mod, "<fdepsd: G2 block>", "exec"), g)
+    _C["g2"] = (g["g2"], hashlib.sha256(ast.unparse(mod).encode()).hexdigest()[:12])
+    return _C["g2"]
+
+
+class DArr(np.ndarray):
+    """object array whose comparisons are decided element by element (boolean masks stay NumPy's)"""
+
+    def _cmp(self, o, f):
+        a = np.asarray(self)
+        ob = np.broadcast_to(np.asarray(o, dtype=object), a.shape)
+        out = np.zeros(a.shape, bool)
+        for idx in np.ndindex(*a.shape):
+            out[idx] = bool(f(a[idx], ob[idx]))
+        return out
+
+    def __ge__(self, o):
+        return self._cmp(o, lambda x, y: x >= y)
+
+    def __gt__(self, o):
+        return self._cmp(o, lambda x, y: x > y)
+
+    def __le__(self, o):
+        return self._cmp(o, lambda x, y: x <= y)
+
+    def __lt__(self, o):
+        return self._cmp(o, lambda x, y: x < y)
+
+
+G2_CASES = {
+    # (Amax per frequency, cumulative counts per bin); bin amplitudes are Amax * (k+1)/nbins as in fdepsd
+    # 7 bins: no bin amplitude equals Amax/3 (the small-cycle cut), where inclusion would hinge on floating-point rounding
+    "g2-above": ([2.0], [[1000, 600, 300, 120, 30, 6, 1]]),
+    "g2-below": ([0.5], [[1000, 20, 6, 3, 2, 2, 1]]),
+    "two-freq": ([3.0, 0.25], [[500, 200, 90, 30, 8, 3, 2], [64, 32, 16, 8, 4, 2, 1]]),
+}
+
+
+class NPG(NPProxy):
+    def log(self, x):
+        return np.log(np.asarray(x, dtype=float))
+
+
+def g2_fn(case):
+    def fn(eng):
+        S.set_engine(eng)
+        g2, _ = _g2_block()
+        amax, counts = G2_CASES[case]
+        LF, nb = len(amax), len(counts[0])
+        base_A = np.array(amax)
+        base_B = np.array([[a * (k + 1) / nb for k in range(nb)] for a in amax])
+        cnt = np.array(counts, dtype=float)
+        want = g2(base_A.copy(), base_B.copy(), cnt, LF, np)            # the same statements on the unscaled data
+        c = z3.Real("scale")
+        eng.assume(z3.And(c >= z3.RealVal("0.001"), c <= 10000))
+        A = np.array([S.SymR(c) * float(a) for a in base_A], dtype=object).view(DArr)
+        B = np.empty(base_B.shape, dtype=object)
+        for idx in np.ndindex(*base_B.shape):
+            B[idx] = S.SymR(c) * float(base_B[idx])
+        info = dict(case=case)
+        try:
+            got = g2(A, B.view(DArr), cnt, LF, NPG())
+        except E.Inconclusive:
+            raise
+        except Exception as ex:
+            import traceback
+            return [E.Obl("G2 block raises %r (%s)" % (ex, traceback.format_exc()[-300:]), False, info=info)]
+        eng.tag("g2-homogeneous")
+        obls = []
+        for j in range(LF):
+            w = z3.RealVal(Fraction(float(want[j]))) * c * c
+            obls.append(E.Obl("G2max[%d] of the signal scaled by c equals c^2 times G2max of the signal (1e-9 relative)" % j,
+                              z3.And(S.lift(got[j]) - w <= w * z3.RealVal("1e-9"), w - S.lift(got[j]) <= w * z3.RealVal("1e-9")), info=info))
+        return obls
+    return fn
+
+
+def replay_g2(p):
+    """the whole fdepsd on a signal and on the same signal scaled by the model's factor"""
+    import pyyeti.fdepsd as fd
+    c = float(Fraction(p["model"].get("scale", 100) or 100))
+    rng = np.random.RandomState(5)
+    sr = 200.0
+    sig = rng.randn(int(sr * 8))
+    freq = np.array([5.0, 12.0, 30.0])
+    msgs = []
+    for resp in ("absacce", "pvelo"):
+        a = fd.fdepsd(sig, sr, freq, 10, resp=resp, verbose=False)
+        b = fd.fdepsd(sig * c, sr, freq, 10, resp=resp, verbose=False)
+        for nm in ("G1", "G2", "G4", "G8", "G12"):
+            pa, pb = np.asarray(a.psd[nm]), np.asarray(b.psd[nm])
+            if not np.allclose(pb, pa * c * c, rtol=1e-8):
+                msgs.append("fdepsd(resp=%r) of a signal scaled by %g: %s is %s, %g^2 times the unscaled %s is %s" % (resp, c, nm, pb.tolist(), c, nm, (pa * c * c).tolist()))
+    if msgs:
+        return True, "; ".join(msgs[:2])
+    return False, "fdepsd scales with the square of the amplitude on the real code"
+
+
+def job_g2(case):
+    eng = E.Engine(obl_timeout_ms=60000)
+    eng.obl_mode = "each"
+    res = eng.explore(g2_fn(case), max_cex=3)
+    res["note"] = "G2 block, case %s" % case
+    H.triage(res, "g2", replay_g2, lambda c: dict(case=case, model=c["model"]))
+    return res
+
+
+REPLAY = {"g2": replay_g2, "findap": replay_findap, "binify": replay_binify, "dofde": replay_dofde}
 
 
 def jobs(tier, seed):
@@ -480,6 +611,8 @@ def jobs(tier, seed):
         out.append(H.Job("binify-explicit-%s" % right, job_binify, 2 if q else 3, 2, 1, right, True, split_depth=6, weight=300))
         if not q:
             out.append(H.Job("binify-auto-4-%s" % right, job_binify, 4, 3, 2, right, False, split_depth=8, weight=900))
+    for case in G2_CASES:
+        out.append(H.Job("g2-%s" % case, job_g2, case, weight=5))
     out.append(H.Job("dofde-4", job_dofde, 4, 3, split_depth=6, weight=200))
     if not q:
         out.append(H.Job("dofde-5", job_dofde, 5, 4, split_depth=8, weight=900))
@@ -491,5 +624,5 @@ def extra_coverage(results):
     import pyyeti.locate as loc
     import pyyeti.fdepsd as fd
     _, _, ids = variants()
-    return dict(functions_encoded=[H.fn_id(loc.find_unique), H.fn_id(cc.getbins), H.fn_id(cc._binify), H.fn_id(cc.binify), H.fn_id(fd._dofde),
+    return dict(functions_encoded=["fdepsd.fdepsd[G2 block, from the function's AST]@" + _g2_block()[1], H.fn_id(loc.find_unique), H.fn_id(cc.getbins), H.fn_id(cc._binify), H.fn_id(cc.binify), H.fn_id(fd._dofde),
                                    "cyclecount.findap[default]@" + ids.get("default", "?"), "cyclecount.findap[numba definition, from AST]@" + ids.get("numba", "?")])
